@@ -16,6 +16,9 @@
           and the *_refuted theorems exhibit the witnesses.  [fx_repaired] (all five repaired) is what the
           specification interpreter [sp_run] describes.
 
+      F29 (getElementById returns elements that were removed from the document tree) is a KNOWN FINDING as well
+          (IdMap14.im_step chk=false is the code as it is; T14_getbyid_detached_refuted).
+
     PARTIAL items (said here once, and in checks/meta/C14.json):
     - the theorems about NodeIterator stepping, the tag-name list and the removal rule of ranges take the pointer
       walks of the code (nextNode(node,true), previousNode(node), nextMatchingElementAfter, isAncestorOf) as
@@ -29,7 +32,7 @@
       specification's outside the F27 class; the seven moves are compared with [sp_w_target_at] by correspondence only;
     - the iterator's removal fix-up (removeNode) is compared with [sp_it_remove] by correspondence only. *)
 From Coq Require Import List NArith Arith Bool Lia.
-From XV Require Import C14.Spec14 C14.Hist14 C14.Model14 C14.Cert14 C14.Proofs14a C14.Proofs14b C14.Proofs14c C14.Proofs14d.
+From XV Require Import C14.Spec14 C14.Hist14 C14.Model14 C14.Cert14 C14.IdMap14 C14.Proofs14a C14.Proofs14b C14.Proofs14c C14.Proofs14d C14.Proofs14e.
 Import ListNotations.
 
 Definition fx_as_is := {| fx_iter_fresh := false; fx_ins_text := false; fx_wprev := false; fx_wshow := false; fx_split := false |}.
@@ -295,6 +298,71 @@ Proof.
   vm_compute. repeat split; reflexivity.
 Qed.
 Print Assumptions T14_split_invalid_refuted.
+
+(* ============================================================================================================ *)
+(** * getElementById: DOMNodeIDMap (IdMap14.v; table sizes, fill limits and hash constants regenerated from /repo) *)
+
+(** T14_idmap: after ANY sequence of add / remove on the document's initially empty table -- whatever growth happened
+    on the way -- (1) every element of the specification set (added and not removed since) is found under its ID
+    value, provided the registered ID values are pairwise different (DOMNodeIDMap's documented precondition);
+    (2) whatever find returns is a registered element carrying exactly that value; (3) a value no registered element
+    carries is never found.
+    PARTIAL: that the probe loops terminate (outcome [Hang] unreachable: needs "a step sequence modulo a prime visits
+    every slot" and the fill limit) is not proved; "remove really takes the entry out" is proved per step
+    (T14_idmap_remove_gone) under the hypothesis that no attribute is registered twice, whose preservation across
+    growTable is not proved; both are exercised by the colliding-ID histories of the check. *)
+Theorem T14_idmap : forall val fuel l m',
+  t_run val fuel im_new l = Done m' ->
+  (forall e, In e (spec_set [] l) ->
+     (forall e', present m' e' -> val e' = val e -> e' = e) -> im_find val m' (val e) = Done (Some e)) /\
+  (forall v e, im_find val m' v = Done (Some e) -> present m' e /\ val e = v) /\
+  (forall v, (forall e, present m' e -> val e <> v) -> im_find val m' v = Done None \/ im_find val m' v = Hang).
+Proof. exact idmap_correct. Qed.
+Print Assumptions T14_idmap.
+
+(** growth loses nothing: one add -- with or without growTable -- keeps the invariant, registers the new attribute,
+    keeps every registered attribute and invents none *)
+Theorem T14_idmap_add : forall val fuel m e m', wf val m -> im_add val fuel m e = Done m' ->
+  wf val m' /\ present m' e /\ keeps m m' /\ (forall e', present m' e' -> e' = e \/ present m e').
+Proof. exact add_wf. Qed.
+Print Assumptions T14_idmap_add.
+
+Theorem T14_idmap_remove : forall val m e m', wf val m -> im_remove val m e = Done m' ->
+  wf val m' /\ (forall e', e' <> e -> present m e' -> present m' e') /\ (forall e', present m' e' -> present m e').
+Proof. exact remove_wf. Qed.
+Print Assumptions T14_idmap_remove.
+
+(** remove really takes the entry out, when every attribute is registered at most once *)
+Theorem T14_idmap_remove_gone : forall val m e m', wf val m -> unique_entries m -> present m e ->
+  im_remove val m e = Done m' -> ~ present m' e.
+Proof. exact remove_gone. Qed.
+Print Assumptions T14_idmap_remove_gone.
+
+(** KNOWN FINDING F29: getElementById returns an element that is no longer in the document tree *)
+Theorem T14_getbyid_detached_refuted :
+  exists h, im_run false h <> isp_run h /\ im_run true h = isp_run h.
+Proof.
+  exists [INew; IApp 1 2; ISetAttr 2 [105;100;120]%N; ISetId 2 true; IGet [105;100;120]%N; IRm 2; IGet [105;100;120]%N].
+  split; [vm_compute; discriminate|vm_compute; reflexivity].
+Qed.
+Print Assumptions T14_getbyid_detached_refuted.
+
+(** non-vacuity: "id40" and "id100" collide in the 997-slot table (same initial hash = same probe sequence); the
+    attribute registered first is removed, the second is still found behind the deleted marker; 800 add/remove
+    rounds push fNumEntries over the fill limit, the table grows to the next size and both are still found *)
+Definition ex_val (e : nat) : list N :=
+  match e with 2 => [105;100;52;48]%N | 3 => [105;100;49;48;48]%N | _ => [107]%N end.
+Example T14_idmap_collision_example :
+  xhash (ex_val 2) 996 = xhash (ex_val 3) 996 /\
+  (exists m, t_run ex_val 3 im_new [TAdd 2; TAdd 3; TRemove 2] = Done m /\ im_find ex_val m (ex_val 3) = Done (Some 3)
+             /\ im_find ex_val m (ex_val 2) = Done None) /\
+  (exists m, t_run ex_val 3 im_new (flat_map (fun _ => [TAdd 5; TRemove 5]) (seq 0 800) ++ [TAdd 2; TAdd 3; TRemove 2]) = Done m /\
+             im_size m = N.to_nat 9973 /\ im_find ex_val m (ex_val 3) = Done (Some 3) /\ im_find ex_val m (ex_val 2) = Done None).
+Proof.
+  split; [vm_compute; reflexivity|]. split.
+  - eexists. split; [vm_compute; reflexivity|]. split; vm_compute; reflexivity.
+  - eexists. split; [vm_compute; reflexivity|]. split; [vm_compute; reflexivity|]. split; vm_compute; reflexivity.
+Qed.
 
 Definition ex_f_cert : forest :=
   [Node 0 KDoc [] [Node 1 KElem [97%N] [Node 2 KElem [98%N] [Node 3 KText [104;105]%N []; Node 4 KElem [99%N] []];
